@@ -13,6 +13,7 @@ import (
 	"io"
 	"runtime"
 	"strconv"
+	"sync/atomic"
 	"time"
 
 	"git.torproject.org/pluggable-transports/snowflake.git/v2/common/amp"
@@ -166,6 +167,72 @@ func atoi(t string) int {
 	return n
 }
 
+type endlessReader struct {
+	prefix   []byte
+	filler   []byte
+	consumed int64
+	stop     int32
+}
+
+func (r *endlessReader) Read(b []byte) (int, error) {
+	if atomic.LoadInt32(&r.stop) != 0 {
+		return 0, io.EOF
+	}
+	n := 0
+	if len(r.prefix) > 0 {
+		n = copy(b, r.prefix)
+		r.prefix = r.prefix[n:]
+	} else {
+		for n < len(b) {
+			n += copy(b[n:], r.filler)
+		}
+	}
+	atomic.AddInt64(&r.consumed, int64(n))
+	return n, nil
+}
+
+func lazy(prefix []byte, fillKind int) string {
+	fill := []byte("<!-- filler --> \n")
+	if fillKind == 1 {
+		fill = []byte("<p>text outside pre</p>\n")
+	}
+	src := &endlessReader{prefix: prefix, filler: fill}
+	type res struct {
+		n   int
+		err error
+	}
+	ch := make(chan res, 1)
+	go func() {
+		dec, err := amp.NewArmorDecoder(src)
+		if err != nil {
+			ch <- res{0, err}
+			return
+		}
+		buf := make([]byte, 16)
+		n, err := dec.Read(buf)
+		ch <- res{n, err}
+	}()
+	var out string
+	select {
+	case r := <-ch:
+		c := atomic.LoadInt64(&src.consumed)
+		bucket := "small"
+		if c > 1<<20 {
+			bucket = "over-1MiB"
+		}
+		if r.err != nil && r.n == 0 {
+			out = "first=error consumed=" + bucket
+		} else {
+			out = "first=data consumed=" + bucket
+		}
+	case <-time.After(8 * time.Second):
+		c := atomic.LoadInt64(&src.consumed)
+		out = "first=none consumed=" + strconv.FormatInt(c>>20, 10) + "MiB-and-growing"
+	}
+	atomic.StoreInt32(&src.stop, 1)
+	return out
+}
+
 func main() {
 	wire.Loop(func(a []string) string {
 		if hung {
@@ -175,7 +242,7 @@ func main() {
 			return "!badcase"
 		}
 		pi := 1
-		if a[0] == "dec" || a[0] == "mon" {
+		if a[0] == "dec" || a[0] == "mon" || a[0] == "lazy" {
 			// dec/mon <srcchunk> <rbuf> <doc> <hex>...
 			if len(a) < 4 {
 				return "!badcase"
@@ -233,6 +300,11 @@ func main() {
 				return "E:write"
 			}
 			return decode(o, atoi(a[3]), atoi(a[4]))
+		case "lazy":
+			// bounded buffering / no hang on an endless document: the source is the given prefix followed by
+			// filler that never ends; report how much of the source was consumed when the first decoded byte
+			// (or an error) is available. A streaming decoder needs about one tokenizer buffer.
+			return lazy(p, atoi(a[1]))
 		case "mon":
 			var m0, m1 runtime.MemStats
 			runtime.GC()
